@@ -9,7 +9,7 @@ package parser
 //@ # the parser's current token is EOS or mirrors the lexer's last token, whose kind the
 //@ # switch in Read has a case for and whose value has the dynamic type Read asserts
 //@ spec tokenOK(p) = (p.token == base.EOS && atEOF(p.Lexer.reader)) || (p.token == p.Lexer.tok && parserKind(p.token) && valueMatches(p.Lexer))
-//@ spec wfP(p) = p != nil && wfA(p.Lexer) && reservedOK() && lexer.reserved != nil && tblOK() && tokenOK(p)
+//@ spec opaque wfP(p) = p != nil && wfA(p.Lexer) && reservedOK() && lexer.reserved != nil && tblOK() && tokenOK(p)
 //@ # token-level measure: two units per unit of the reader measure, one for a pushed-back token
 //@ spec Mp(p) = 2*M(p.Lexer.reader) + ite(p.ungetFlg, 1, 0)
 
